@@ -35,3 +35,13 @@ Definition uid_pairs (born : list nat) (pairs : list (nat * nat)) : list (nat * 
 
 (* maternal networks: active (beta > 0) while end > ti *)
 Definition maternal_active (endt ti : Z) : bool := Z.ltb ti endt.
+
+(* ---- pairwise random numbers of the Erdos-Renyi network (ss.utils.combine_rands): two 64-bit draws a, b are combined into c = (a*b) xor (a-b) in 64-bit
+   wrap-around arithmetic and u = c / (2^64 - 1); the pair is an edge iff u <= p.  With UNSIGNED arithmetic c ranges over [0, 2^64); reading the same 64 bits
+   as a SIGNED integer gives c - 2^64 for the upper half. *)
+Definition two64 : Z := 18446744073709551616.
+Definition combine_bits (a b : Z) : Z := Z.lxor ((a * b) mod two64) ((a - b) mod two64).
+Definition combine_u64 (a b : Z) : Q := inject_Z (combine_bits a b) / inject_Z (two64 - 1).
+Definition as_signed64 (c : Z) : Z := if Z.ltb c (two64 / 2) then c else (c - two64)%Z.
+Definition combine_i64 (a b : Z) : Q := inject_Z (as_signed64 (combine_bits a b)) / inject_Z (two64 - 1).
+Definition er_edge (u p : Q) : bool := Qle_bool u p.
